@@ -396,6 +396,13 @@ def gen_script(rng, sched, fam, bar_ok=True):
     elif f < 0.6:
         x = rng.choice(sc["responders"])
         sc["filter"] = {"id": x["id"], "address": x["ip"]}
+    elif f < 0.75:
+        # identifier AND static address (how the spa manager builds its locator), the address now answering for another spa
+        # (replaced pack / reassigned lease), or other spas' replies reaching the unconnected socket as well
+        x, y = rng.choice(sc["responders"]), rng.choice(sc["responders"])
+        sc["filter"] = {"id": x["id"] if rng.random() < 0.7 else _ident(77).hex(), "address": y["ip"]}
+        if rng.random() < 0.5:
+            rng.choice(sc["responders"])["hears_all"] = True
     if fam == "suspend" or rng.random() < 0.15:
         sc["suspend_ms"] = [rng.choice([0, 0, 50, 100, 150, 1000, 5000]) for _ in range(rng.randint(1, 3))]
     if fam == "cancel":
